@@ -43,6 +43,11 @@ fn input_menu(rng: &mut Rng, thorough: bool) -> (InputSpec, Vec<(String, Ty)>) {
             (InputSpec::DeepChain { depth }, vec![("v".into(), Ty::Int), ("next".into(), Ty::Map)])
         };
     }
+    if rng.chance(1, 8) {
+        // the rest of the serde data model: scalars, options, tuples, sequences, newtype / unit /
+        // tuple structs, chars, empty maps — rules then mostly see `facts` or fail on references
+        return (InputSpec::Typed(rng.below(15) as u8, x), vec![("facts".into(), Ty::Map), ("n".into(), Ty::Int), ("flag".into(), Ty::Bool)]);
+    }
     match rng.below(12) {
         0 | 1 | 2 | 3 => (InputSpec::Val(XV::M(val_fields)), refs_all),
         4 => (InputSpec::Val(XV::N), refs_all),
@@ -178,6 +183,25 @@ fn serialize_input(i: &Input) -> Result<Value, reval::Error> {
         Input::Unit => ().serialize(ValueSerializer),
         Input::StrKeyMap(m) => m.serialize(ValueSerializer),
         Input::Chain(ch) => ch.serialize(ValueSerializer),
+        Input::Typed(t) => {
+            use crate::exec::TypedIn;
+            match t {
+                TypedIn::I(x) => x.serialize(ValueSerializer),
+                TypedIn::S(x) => x.serialize(ValueSerializer),
+                TypedIn::ONone(x) | TypedIn::OSome(x) => x.serialize(ValueSerializer),
+                TypedIn::OStruct(x) => x.serialize(ValueSerializer),
+                TypedIn::Tup(x) => x.serialize(ValueSerializer),
+                TypedIn::Seq(x) => x.serialize(ValueSerializer),
+                TypedIn::Newtype(x) => x.serialize(ValueSerializer),
+                TypedIn::UnitS(x) => x.serialize(ValueSerializer),
+                TypedIn::Ch(x) => x.serialize(ValueSerializer),
+                TypedIn::B(x) => x.serialize(ValueSerializer),
+                TypedIn::EmptyMap(x) => x.serialize(ValueSerializer),
+                TypedIn::F(x) => x.serialize(ValueSerializer),
+                TypedIn::TupS(x) => x.serialize(ValueSerializer),
+                TypedIn::SeqStruct(x) => x.serialize(ValueSerializer),
+            }
+        }
     }
 }
 
